@@ -56,6 +56,11 @@ pub fn book_of(a: &[&str]) -> Result<Spreadsheet, String> {
             let mut rng = Rng::new(seed);
             guard(|| gen_sheet_book(&mut rng)).map_err(|_| "generator panicked".to_string())
         }
+        "pgen" => {
+            let seed: u64 = a[3].parse().map_err(|_| "seed")?;
+            let mut rng = Rng::new(seed ^ 0x706b67);
+            guard(|| gen_pkg_book(&mut rng)).map_err(|_| "generator panicked".to_string())
+        }
         "file" => {
             let path = format!("{}/{}", corpus_dir(), a[3]);
             guard(|| umya_spreadsheet::reader::xlsx::read(std::path::Path::new(&path))).map_err(|_| "read panicked".to_string())?.map_err(|e| format!("{:?}", e))
@@ -168,7 +173,7 @@ fn render_claim(case: &str, name: &str) -> Result<(), &'static str> {
     if name.ends_with(".vml") {
         return Err("vml-written-raw");
     }
-    let fresh = case == "gen" || case == "xml" || case == "lazygen";
+    let fresh = case == "gen" || case == "xml" || case == "lazygen" || case == "pgen";
     if fresh {
         return Ok(());
     }
@@ -344,6 +349,109 @@ pub fn gen_sheet_book(rng: &mut Rng) -> Spreadsheet {
     book
 }
 
+/// Workbooks for the package bridge (`c02 pkgbridge`): 1..6 PLAIN sheets (nothing that adds parts: no comments,
+/// drawings, tables, printer settings), with or without any string (so that the shared-string part, its Override and
+/// its workbook relationship are present or absent), hidden sheets, a sheet removed and others added afterwards,
+/// defined names, and per sheet no hyperlink / only internal ones (no relationships part) / external ones.
+pub fn gen_pkg_book(rng: &mut Rng) -> Spreadsheet {
+    use umya_spreadsheet::structs::{Hyperlink, SheetStateValues};
+    let mut book = umya_spreadsheet::new_file_empty_worksheet();
+    let n_sheets = rng.range(1, 6) as usize;
+    let mut names: Vec<String> = vec![];
+    for _ in 0..n_sheets {
+        let n = wb::sheet_name(rng, &names);
+        book.new_sheet(n.clone()).unwrap();
+        names.push(n);
+    }
+    if rng.chance(1, 3) && names.len() < 6 {
+        // remove a sheet (any position, after using it) and add a new one: part numbers and ids follow the positions
+        let victim = rng.below(names.len() as u64) as usize;
+        book.get_sheet_mut(&victim).unwrap().get_cell_mut((1u32, 1u32)).set_value_string("gone");
+        book.remove_sheet(victim).unwrap();
+        names.remove(victim);
+        for _ in 0..rng.range(1, 2) {
+            let n = wb::sheet_name(rng, &names);
+            book.new_sheet(n.clone()).unwrap();
+            names.push(n);
+        }
+    }
+    let n_sheets = names.len();
+    let with_strings = rng.chance(2, 3);
+    for si in 0..n_sheets {
+        let ws = book.get_sheet_mut(&si).unwrap();
+        for _ in 0..rng.below(8) {
+            let (c, r) = (rng.range(1, 6) as u32, rng.range(1, 9) as u32);
+            let cell = ws.get_cell_mut((c, r));
+            match rng.below(4) {
+                0 if with_strings => { cell.set_value_string(wb::rand_text(rng, wb::TEXT_ALPHABET, 1, 6)); }
+                1 => { cell.set_value_number(rng.range(0, 5000) as f64 / 4.0); }
+                2 => { cell.set_value_bool(rng.chance(1, 2)); }
+                _ => { cell.set_value_number(rng.range(0, 9) as f64); }
+            }
+        }
+        match rng.below(4) {
+            0 => {}
+            1 => {
+                // only internal links: no relationships part
+                for j in 0..rng.range(1, 3) {
+                    let mut h = Hyperlink::default();
+                    h.set_url(format!("{}!B{}", wb::quote_sheet(&names[rng.below(names.len() as u64) as usize]), j + 1));
+                    h.set_location(true);
+                    ws.get_cell_mut((j as u32 + 1, 20u32)).set_hyperlink(h);
+                }
+            }
+            _ => {
+                for j in 0..rng.range(1, 4) {
+                    let mut h = Hyperlink::default();
+                    if j == 2 { h.set_url(format!("{}!A1", wb::quote_sheet(&names[0]))); h.set_location(true); }
+                    else { h.set_url(format!("https://example.com/p{}?a=1&b={}", rng.below(5), j)); }
+                    if rng.chance(1, 3) { h.set_tooltip("tip"); }
+                    ws.get_cell_mut((j as u32 + 1, 21u32)).set_hyperlink(h);
+                }
+            }
+        }
+        if rng.chance(1, 3) {
+            ws.set_state(if rng.chance(1, 2) { SheetStateValues::Hidden } else { SheetStateValues::VeryHidden });
+        }
+        if rng.chance(1, 3) {
+            let addr = format!("{}!$A$1:$B${}", wb::quote_sheet(&names[si]), rng.range(1, 9));
+            let _ = ws.add_defined_name(format!("L{}_{}", si, rng.below(100)), addr);
+        }
+    }
+    if (0..n_sheets).all(|i| !matches!(book.get_sheet(&i).unwrap().get_state(), SheetStateValues::Visible)) {
+        book.get_sheet_mut(&0).unwrap().set_state(SheetStateValues::Visible);
+    }
+    for _ in 0..rng.below(3) {
+        let target = names[rng.below(names.len() as u64) as usize].clone();
+        let _ = book.get_sheet_mut(&0).unwrap().add_defined_name(format!("G{}", rng.below(1000)), format!("{}!$C${}", wb::quote_sheet(&target), rng.range(1, 20)));
+    }
+    book.set_active_sheet(rng.below(n_sheets as u64) as u32);
+    book
+}
+
+/// the in-memory workbook for `c02 pkgbridge`: per sheet whether it is plain (nothing that adds parts) and its
+/// hyperlinks; whether the workbook is plain (no macros, no custom properties); the cells as `model=`
+fn pkg_dump(book: &Spreadsheet) -> String {
+    use umya_spreadsheet::helper::coordinate::coordinate_from_index;
+    let n = book.get_sheet_count();
+    let mut plain = vec![];
+    let mut links = vec![];
+    for i in 0..n {
+        let ws = book.get_sheet(&i).unwrap();
+        let p = !ws.has_comments() && !ws.has_drawing_object() && ws.get_tables().is_empty() && ws.get_page_setup().get_object_data().is_none() && ws.get_ole_objects().get_ole_object().is_empty();
+        plain.push(if p { "1" } else { "0" });
+        let mut ls = vec![];
+        for c in ws.get_cell_collection_sorted() {
+            if let Some(h) = c.get_hyperlink() {
+                ls.push(format!("{}:{}:{}:{}", hex(&coordinate_from_index(c.get_coordinate().get_col_num(), c.get_coordinate().get_row_num())), if *h.get_location() { 1 } else { 0 }, hex(h.get_url()), hex(h.get_tooltip())));
+            }
+        }
+        links.push(if ls.is_empty() { "~".to_string() } else { ls.join(",") });
+    }
+    let wbplain = !book.get_has_macros() && book.get_properties().get_custom_properties().get_custom_document_property_list().is_empty();
+    format!("plain={} wbplain={} links={} model={}", plain.join("|"), if wbplain { 1 } else { 0 }, links.join("|"), model_dump(book))
+}
+
 /// the in-memory workbook for `c02 sheetbridge`: per sheet the row table, merged ranges and hyperlinks; the sheet
 /// list and the defined names (the cells travel as `model=` in the format of `model_dump`)
 fn sheet_dump(book: &Spreadsheet) -> String {
@@ -496,7 +604,7 @@ pub fn run_case(out: &mut Out, header: &str) {
     // the claim is that the driver finds the rendering of the facts equal to what its XML reader parsed
     match guard(|| crate::c01::package_facts(&bytes, book.get_sheet_count())) {
         Ok(Ok(facts)) => {
-            let model = if a[2] == "gen" || a[2] == "xml" || a[2] == "sgen" { guard(|| model_dump(&book)).unwrap_or("~".into()) } else { "~".to_string() };
+            let model = if a[2] == "gen" || a[2] == "xml" || a[2] == "sgen" || a[2] == "pgen" { guard(|| model_dump(&book)).unwrap_or("~".into()) } else { "~".to_string() };
             out.count(if model == "~" { "bridge.facts-only" } else { "bridge.with-model" });
             let line = format!("c02 bridge {} model={}", facts, model);
             out.begin(&line);
@@ -507,7 +615,24 @@ pub fn run_case(out: &mut Out, header: &str) {
     // the sheet / workbook bridge (theorems C02_sheet_decodes, C02_merges_decode, C02_hyperlinks_decode, C02_book_sheets_decode):
     // the in-memory rows, cells, merged ranges, hyperlinks, sheet list and defined names; the claim is that the driver
     // finds the trees its writer model renders equal to what its XML reader parsed from the real parts
-    if a[2] == "gen" || a[2] == "sgen" {
+    if a[2] == "gen" || a[2] == "sgen" || a[2] == "pgen" {
+        // the package bridge (theorems C02_content_types_cover, C02_package_rels_resolve, C02_rel_ids_unique, C02_book_decodes):
+        // the claim is that the skeleton of the MODEL package (part names, content types, relationship triples) is the
+        // skeleton of the real one
+        if let Ok(d) = guard(|| pkg_dump(&book)) {
+            let line = format!("c02 pkgbridge {}", d);
+            out.begin(&line);
+            out.count("pkgbridge");
+            out.count(&format!("pkgbridge.sheets.{}", book.get_sheet_count()));
+            let pf = d.split(' ').next().unwrap_or("").trim_start_matches("plain=").to_string();
+            out.count(if pf.split('|').all(|x| x == "1") && d.contains(" wbplain=1 ") { "pkgbridge.plain" } else { "pkgbridge.not-plain" });
+            out.count(if parts.iter().any(|(n, _)| n == "xl/sharedStrings.xml") { "pkgbridge.sst.present" } else { "pkgbridge.sst.absent" });
+            out.count_n("pkgbridge.sheet-rels-parts", parts.iter().filter(|(n, _)| n.starts_with("xl/worksheets/_rels/")).count() as u64);
+            for i in 0..book.get_sheet_count() {
+                if !matches!(book.get_sheet(&i).unwrap().get_state(), umya_spreadsheet::structs::SheetStateValues::Visible) { out.count("pkgbridge.sheet.hidden"); }
+            }
+            out.end(&line, "ok", true);
+        }
         if let Ok(d) = guard(|| sheet_dump(&book)) {
             let line = format!("c02 sheetbridge {}", d);
             out.begin(&line);
@@ -552,6 +677,11 @@ pub fn gen(tier: Tier, seed: u64) -> Vec<String> {
     let n = if tier == Tier::Thorough { 600 } else { 60 };
     for i in 0..n {
         v.push(format!("c02 reset sgen {} {}", rng.next() % 1_000_000_007, if i % 4 == 3 { "light" } else { "std" }));
+    }
+    // workbooks for the package bridge (plain sheets, 1..6)
+    let n = if tier == Tier::Thorough { 600 } else { 80 };
+    for i in 0..n {
+        v.push(format!("c02 reset pgen {} {}", rng.next() % 1_000_000_007, if i % 4 == 3 { "light" } else { "std" }));
     }
     // partly deserialized workbooks (opened lazily, one sheet touched, saved)
     let n = if tier == Tier::Thorough { 400 } else { 40 };
